@@ -30,14 +30,31 @@ pub fn dump<'tcx>(n: &Names<'tcx>, out: &str, target: &str) -> usize {
                             buf.push(',');
                         }
                         let fty = tcx.type_of(f.did).instantiate_identity().skip_norm_wip();
+                        // derive-helper attributes (`#[serde(..)]`) are not kept in the HIR of this toolchain: recover them
+                        // from the source text between the previous field (or the item start) and this field
                         let mut attrs = Vec::new();
-                        if let Some(fl) = f.did.as_local() {
-                            let hid = tcx.local_def_id_to_hir_id(fl);
-                            for a in tcx.hir_attrs(hid) {
-                                let s = format!("{:?}", a);
-                                if s.contains("serde") {
-                                    // keep a compact token list: the identifiers and literals only
-                                    attrs.push(compact_attr(&s));
+                        if f.did.is_local() {
+                            let fsp = tcx.def_span(f.did);
+                            let isp = tcx.def_span(did);
+                            if !fsp.from_expansion() {
+                                let prev_hi = if fi == 0 {
+                                    // start of the variant (enum) or of the item header
+                                    if adt.is_enum() { tcx.def_span(v.def_id).lo() } else { isp.lo() }
+                                } else {
+                                    tcx.def_span(v.fields[rustc_abi::FieldIdx::from_usize(fi - 1)].did).hi()
+                                };
+                                if prev_hi <= fsp.lo() {
+                                    let gap = fsp.with_lo(prev_hi).with_hi(fsp.lo());
+                                    if let Ok(txt) = tcx.sess.source_map().span_to_snippet(gap) {
+                                        let mut rest = txt.as_str();
+                                        while let Some(i) = rest.find("serde(") {
+                                            let tail = &rest[i..];
+                                            // up to the closing bracket of the attribute
+                                            let end = tail.find(']').unwrap_or(tail.len());
+                                            attrs.push(compact_attr(&tail[..end]));
+                                            rest = &tail[end..];
+                                        }
+                                    }
                                 }
                             }
                         }
